@@ -155,6 +155,15 @@ check("C18", "model_checking",
       "Trusted: the row locator / DOM shape comparison in checks/c18.py (html.parser). Four sites where FORD shows a placeholder or a truncated expression are listed known findings (text clause only; structure changes there are still reported).",
       "bounded-exhaustive enumeration of literal contents x display sites with verbatim-text and DOM-shape oracles", "DESIGN.md 5/C18")
 
+check("C05", "model_checking",
+      "A project with every entity kind in public / protected / private flavours and documented / undocumented twins (30 tracer-carrying entities incl. components, bindings, "
+      "procedure internals, a separate module procedure in a submodule) is built for project display in all 8 subsets (+ none) x proc_internals x hide_undoc (full product), "
+      "crossed with every combination of <= 1 (thorough 2) metadata overrides at file / module / type / procedure level. A reference selection function decides which entities "
+      "are selected; on the generated site every selected entity's tracer must be present (and its page exist), no tracer of an unselected entity may appear on any page or in "
+      "the search index, no href may target an unselected entity's page, and all links must resolve.",
+      "Trusted: the reference selection rule (display inheritance as documented) and the tracer bookkeeping in checks/c05.py; incl_src off. Two genuine defects (file-level display not inherited; hide_undoc hides documented abstract interfaces) are listed known findings matched by feature.",
+      "full product of display configurations x deviation-bounded metadata overrides with a presence/absence tracer oracle", "DESIGN.md 5/C05")
+
 ALL = [f"C{i:02d}" for i in range(1, 21)]
 PENDING_REASON = "check not built yet in this round (planned: see DESIGN.md section 5); will be claimed once its exhaustive check exists"
 
